@@ -1135,9 +1135,12 @@ class n0dict(n0dict_):
             if node_index == "new()":
                 parent_node, node_name_index, cur_value, xpath_found_str, \
                     _not_found_xpath_list = n0dict._find(self, xpath_found_str, self, return_lists)
-                if not isinstance(parent_node[node_name_index], (list, tuple)):
+                # cur_value is the node to extend: parent_node[node_name_index] would fail for a list that is
+                # an element of a plain list (node_name_index is '[i]', which only an n0list understands)
+                if not isinstance(cur_value, (list, tuple)):
                     parent_node[node_name_index] = n0list([parent_node[node_name_index]])
-                return parent_node[node_name_index], None, None, xpath_found_str, ["[new()]"] + xpath_list[1:]
+                    cur_value = parent_node[node_name_index]
+                return cur_value, None, None, xpath_found_str, ["[new()]"] + xpath_list[1:]
             # ..................................................................
             # Try to check all [*] items in the loop
             # ..................................................................
